@@ -2,6 +2,10 @@ import Cinco.Drv.Wire
 import Cinco.TreeIO.Include
 import Cinco.Format.Xml
 import Cinco.Format.Yaml
+import Cinco.Crypto.Secure
+import Cinco.Crypto.KeyFile
+import Cinco.Crypto.Aes256
+import Cinco.Crypto.Hashes
 /-
   Line-protocol driver: one JSON object per line in, one per line out.
   Every reply is `{"ok": ...}` or `{"err": "..."}` (protocol error) — never a default.
@@ -57,6 +61,51 @@ def optStr (j : Json) (k : String) : R (Option String) :=
   | some v => do pure (some (String.ofList (← strOfJson v)))
   | none => pure none
 
+/-- the concrete environment of the driver: executable FIPS-197 AES-256, Lean's UTF-8 codec, AES available -/
+def realCipher : Crypto.BlockCipher := ⟨Aes.encryptBlock, Aes.decryptBlock⟩
+def leanUtf8 : Secure.Utf8 :=
+  { enc := fun s => (String.ofList s).toUTF8.toList,
+    dec := fun b => (String.fromUTF8? (ByteArray.mk b.toArray)).map String.toList }
+def realEnv : Secure.Env := { cipher := realCipher, utf8 := leanUtf8, aesAvailable := true }
+
+def bytesJson (b : List UInt8) : Json := Json.str (bytesToHex b)
+
+def kfFileToJson : KeyFile.File → Json
+  | .absent => Json.str "absent"
+  | .unwritable => Json.str "unwritable"
+  | .data b => Json.mkObj [("data", bytesJson b)]
+
+def kfFileOfJson : Json → R KeyFile.File
+  | .str "absent" => pure .absent
+  | .str "unwritable" => pure .unwritable
+  | j => do pure (.data (← fBytes j "data"))
+
+def kfOpOfJson (j : Json) : R KeyFile.Op := do
+  match (← fStr j "op") with
+  | "enter" => pure (.enter (← fNat j "i"))
+  | "exit" => pure (.exit (← fNat j "i"))
+  | "use" => pure (.use (← fNat j "i"))
+  | "new" => pure .newObj
+  | "write" => pure (.extWrite (← fBytes j "data"))
+  | "delete" => pure .extDelete
+  | "unwritable" => pure .extUnwritable
+  | o => throw s!"unknown keyfile op {o}"
+
+def kfErrName : KeyFile.Err → String
+  | .encryption => "encryption" | .os => "os" | .notOpen => "not-open" | .misuse => "misuse"
+
+def kfOutToJson : KeyFile.Out → Json
+  | .ok => Json.str "ok"
+  | .key k => Json.mkObj [("key", bytesJson k)]
+  | .err e => Json.mkObj [("err", kfErrName e)]
+  | .noObj => Json.str "no-object"
+
+def kfStateToJson (s : KeyFile.State) : Json :=
+  Json.mkObj [("file", kfFileToJson s.world.file),
+    ("objs", Json.arr (s.objs.map (fun o => Json.mkObj [
+        ("key", match o.key with | some k => bytesJson k | none => Json.null),
+        ("refcount", Json.num (JsonNumber.fromNat o.refcount))])).toArray)]
+
 def handle (cmd : String) (j : Json) : R Json := do
   match cmd with
   | "ping" => pure (Json.str "pong")
@@ -99,6 +148,55 @@ def handle (cmd : String) (j : Json) : R Json := do
   | "yaml.unwrap" => do
       let rk ← optStr j "root_key"
       pure (treeToJson (Yaml.unwrap rk (← kvsOfJson (← field j "tree"))))
+  | "xor" => do
+      pure (Json.mkObj [("out", "ok"), ("data", bytesJson (Crypto.xorKey (← fBytes j "key") (← fBytes j "data")))])
+  | "aes.enc" => do
+      pure (Json.mkObj [("out", "ok"), ("data", bytesJson (Crypto.aesEncrypt realCipher (← fBytes j "key") (← fBytes j "iv") (← fBytes j "data")))])
+  | "aes.dec" => do
+      match Crypto.aesDecrypt realCipher (← fBytes j "key") (← fBytes j "ct") with
+      | .ok p => pure (Json.mkObj [("out", "ok"), ("data", bytesJson p)])
+      | .error .tooShort => pure (Json.mkObj [("out", "too-short")])
+      | .error .notAligned => pure (Json.mkObj [("out", "not-aligned")])
+      | .error .badPadding => pure (Json.mkObj [("out", "bad-padding")])
+  | "b64.enc" => do pure (Json.mkObj [("text", strToJson (B64.encode (← fBytes j "data")))])
+  | "b64.dec" => do
+      match B64.decode (← fChars j "text") with
+      | some b => pure (Json.mkObj [("out", "ok"), ("data", bytesJson b)])
+      | none => pure (Json.mkObj [("out", "err")])
+  | "hex.enc" => do pure (Json.mkObj [("text", strToJson (B64.hexEncode (← fBytes j "data")))])
+  | "hex.dec" => do
+      match B64.hexDecode (← fChars j "text") with
+      | some b => pure (Json.mkObj [("out", "ok"), ("data", bytesJson b)])
+      | none => pure (Json.mkObj [("out", "err")])
+  | "secure.tobasic" => do
+      let v ← match fieldOpt j "value" with
+        | some x => do pure (some (← strOfJson x))
+        | none => pure none
+      match Secure.toBasic realEnv (← fBytes j "key") (← fBytes j "iv") (← fStr j "method") v with
+      | some t => pure (Json.mkObj [("out", "ok"), ("tree", treeToJson t)])
+      | none => pure (Json.mkObj [("out", "err")])
+  | "secure.topython" => do
+      match Secure.toPython realEnv (← fBytes j "key") (← treeOfJson (← field j "stored")) with
+      | some (some s) => pure (Json.mkObj [("out", "ok"), ("value", strToJson s)])
+      | some none => pure (Json.mkObj [("out", "ok"), ("value", Json.null)])
+      | none => pure (Json.mkObj [("out", "err")])
+  | "kf.run" => do
+      let file ← kfFileOfJson (← field j "file")
+      let tape ← (← fArr j "tape").mapM (fun x => match x with
+        | .str h => hexToBytes h.toList
+        | _ => throw "bad tape entry")
+      let ops ← (← fArr j "ops").mapM kfOpOfJson
+      let n ← fNat j "objs"
+      -- step by step, reporting the state after every operation
+      let init : KeyFile.State := { objs := List.replicate n KeyFile.Obj.fresh, world := { file := file, tape := tape } }
+      let (_, outs) := ops.foldl (fun (acc : KeyFile.State × List Json) op =>
+        let (s', o) := KeyFile.step acc.1 op
+        (s', acc.2 ++ [Json.mkObj [("out", kfOutToJson o), ("state", kfStateToJson s')]])) (init, [])
+      pure (Json.arr outs.toArray)
+  | "hash" => do
+      match Hash.byName (← fStr j "alg") with
+      | some h => pure (Json.mkObj [("digest", bytesJson (h (← fBytes j "data")))])
+      | none => throw "unknown hash"
   | c => throw s!"unknown command {c}"
 
 def reply (line : String) : String :=
